@@ -112,7 +112,7 @@ pub fn run(sink: &mut Sink, rng: &mut Rng, thorough: bool) {
   sink.emit("store reset", "ok", false);
   // indices the history knows about: live ones (with kind) and a few dead / never allocated ones
   let mut known: Vec<usize> = Vec::new();
-  let n_calls = if thorough { 80_000 } else { 6_000 };
+  let n_calls = if thorough { 80_000 } else { 12_000 };
   let pick_idx = |rng: &mut Rng, known: &Vec<usize>| -> usize {
     if known.is_empty() || rng.chance(1, 12) {
       rng.below(40) as usize // possibly dead / never allocated
